@@ -56,7 +56,7 @@ def _assign_defs(fn):
     return m
 
 
-def origins(fn, op, depth=10, through_calls=True, _seen=None):
+def origins(fn, op, depth=10, through_calls=True, _seen=None, visit=None):
     """backward provenance of an operand (or {'l':..,'p':..} place / int local):
     follows copies, moves, refs, derefs, field projections, no-op casts, tuple/adt aggregates and
     (optionally) transparent adapter calls; returns a list of Origin leaves."""
@@ -73,6 +73,8 @@ def origins(fn, op, depth=10, through_calls=True, _seen=None):
     else:
         return [Origin("unknown", extra=str(op)[:60])]
     l = place["l"]
+    if visit is not None:
+        visit(place)
     key = (l, len(place["p"]))
     if key in _seen or depth <= 0:
         return [Origin("unknown", extra="depth")]
@@ -88,14 +90,14 @@ def origins(fn, op, depth=10, through_calls=True, _seen=None):
         rv = s["rv"]
         k = rv["k"]
         if k == "use":
-            res += origins(fn, rv["op"], depth - 1, through_calls, _seen)
+            res += origins(fn, rv["op"], depth - 1, through_calls, _seen, visit)
         elif k in ("ref", "copy_for_deref", "rawptr"):
-            res += origins(fn, rv["pl"], depth - 1, through_calls, _seen)
+            res += origins(fn, rv["pl"], depth - 1, through_calls, _seen, visit)
         elif k == "cast":
             if rv["ck"] in ("IntToInt", "FloatToInt", "IntToFloat", "FloatToFloat") and rv["from"] != rv["to"]:
                 res.append(Origin("cast", extra="%s->%s" % (rv["from"], rv["to"]), place=rv["op"]))
             else:
-                res += origins(fn, rv["op"], depth - 1, through_calls, _seen)
+                res += origins(fn, rv["op"], depth - 1, through_calls, _seen, visit)
         elif k == "aggr":
             # projection into the aggregate selects one operand when the place has a field projection
             fld = None
@@ -104,11 +106,11 @@ def origins(fn, op, depth=10, through_calls=True, _seen=None):
                     fld = e["f"]
                     break
             if fld is not None and fld < len(rv["ops"]) and rv.get("ak") in ("tuple", "adt", "closure"):
-                res += origins(fn, rv["ops"][fld], depth - 1, through_calls, _seen)
+                res += origins(fn, rv["ops"][fld], depth - 1, through_calls, _seen, visit)
             else:
                 res.append(Origin("aggr", extra=rv.get("ak"), place=place))
                 for o in rv["ops"]:
-                    res += origins(fn, o, depth - 1, through_calls, _seen)
+                    res += origins(fn, o, depth - 1, through_calls, _seen, visit)
         elif k == "binop":
             res.append(Origin("binop", extra=rv["op"], place={"l": rv["l"], "r": rv["r"]}))
         elif k == "unop":
@@ -120,7 +122,7 @@ def origins(fn, op, depth=10, through_calls=True, _seen=None):
     for c in cdefs:
         res.append(Origin("call", call=c))
         if through_calls and TRANSPARENT.search(short(c.name)) and c.args:
-            res += origins(fn, c.args[0], depth - 1, through_calls, _seen)
+            res += origins(fn, c.args[0], depth - 1, through_calls, _seen, visit)
     return res
 
 
@@ -337,3 +339,15 @@ def place_variant_field(pl):
         elif isinstance(e, dict) and "f" in e and var is not None:
             return (var, e.get("ty"))
     return (None, None)
+
+
+def provenance_fields(fn, op, depth=14):
+    """names of all fields read anywhere on the provenance chain of an operand (intermediate places included)"""
+    from .prog import place_fields
+    seen = set()
+
+    def v(pl):
+        for n in place_fields(pl):
+            seen.add(n)
+    origins(fn, op, depth=depth, visit=v)
+    return seen
